@@ -22,7 +22,7 @@ comes from the hypothesis strategy and is reproducible from the hypothesis seed)
   version, drop/add the operator, duplicate or swap the slot/USE block, append a version-like tail
   to the package name, newline, blocker, USE/slot/revision edits).  Value: ``(text, kind)``.
 * ``atom_case()`` / ``build_atom_case(rnd)``: a valid atom, 60% of the time followed by 1-2
-  mutations; value ``{"s", "parent", "mut", "fields"|None, "features"|None}``.
+  mutations; value ``{"s", "parent", "mut", "fields"|None, "features"|None, "parent_features"|None}``.
 * ``fuzz_text()`` / ``build_fuzz_text(rnd)``: raw text over ``ALPHABET`` and splices of atom
   fragments (char-level fuzzing).
 * name builders ``build_category``, ``build_pkgname``, ``build_slotname``, ``build_reponame``,
@@ -265,12 +265,13 @@ def assemble(f) -> str:
 # ---- mutations -----------------------------------------------------------------
 _TAILS = ["-1", "-1-r1", "-r1", "-1a", "-", "-1_p", "-1_", "-1A", "-1.", "-01", "-1_alpha1-r01", "-r", "-1-r", "-1_p1_p", "-1.2.3", "-9f"]
 _STRUCT = ("drop_version", "drop_op", "add_op", "dup_slot", "dup_use", "swap_slot_use", "pkg_tail", "newline", "bang",
-           "use_edit", "slot_edit", "star", "rev_edit", "space")
+           "use_edit", "slot_edit", "repo_edit", "star", "rev_edit", "space")
 _USE_EDITS = ["{},", ",{}", "{},,b", "!{}", "-{}", "{}?", "{}=", "{}(+)", "{}(-)", "{}()", "{}(+)(+)", "--{}", "!-{}?", "{}?=", "", "-",
               "!", "{}(+", "(+)", "{}(@)", "@{}", "{}(+-)", "-{}(+)?", "_{}", "+{}", "{}.x", "!!{}?", "{}??", "{}=?", "-(+)"]
 _SLOT_EDITS = [":", ":-1", ":.1", ":+1", ":_1", ":1/", ":/1", ":1/2/3", ":1==", ":=1", ":*1", ":1*", ":**", ":1=/2", ":1,2", ":1@",
                "::", "::-r", "::r:0", ":::r", ":0:1", ":0::", "::r.x", ":0/+1", ":0/.1", ":0/-1", ":0/1=", ":0=", ":*", ":=", ":0/1", ":0::r",
                "::r", ":=::r", ":/=", ":*/1"]
+_REPO_EDITS = ["::r.x", "::.r", "::r+", "::+r", "::r@", "::r/x", "::-r", "::r-", "::_", "::", "::r:", "::r::r", "::r,s", "::r x", "::R9_-", "::r*", "::0"]
 _REV_EDITS = ["-r0", "-r1", "-r01", "-r", "-r1a", "-R1", "-r-1", "-r1-r1", "-r١", "-r²"]
 _BAD_OPS = ("==", "=<", "<>", "~=", "=>", "><", "~~", "=~")
 
@@ -358,6 +359,9 @@ def mutate(rnd, base: str):
         use = "[" + rnd.choice(_USE_EDITS).format(inner) + "]"
     elif kind == "slot_edit":
         slot = rnd.choice(_SLOT_EDITS)
+    elif kind == "repo_edit":
+        i = slot.find("::")
+        slot = (slot[:i] if i != -1 else slot) + rnd.choice(_REPO_EDITS)
     elif kind == "star":
         head = head + "*" if not head.endswith("*") else head[:-1] + "**"
     elif kind == "rev_edit":
@@ -374,12 +378,12 @@ def mutate(rnd, base: str):
 def build_atom_case(rnd, p_mut=0.6):
     base = build_valid_atom(rnd)
     if rnd.random() >= p_mut:
-        return {"s": base["s"], "parent": None, "mut": None, "fields": base["fields"], "features": base["features"]}
+        return {"s": base["s"], "parent": None, "mut": None, "fields": base["fields"], "features": base["features"], "parent_features": None}
     s, kind = mutate(rnd, base["s"])
     if rnd.random() < 0.17:
         s, kind2 = mutate(rnd, s)
         kind = kind + "+" + kind2
-    return {"s": s, "parent": base["s"], "mut": kind, "fields": None, "features": None}
+    return {"s": s, "parent": base["s"], "mut": kind, "fields": None, "features": None, "parent_features": base["features"]}
 
 
 _FRAGS = ["cat/pkg", "=", ">=", "-1", "-r1", ":0", "/1", "::r", "[a]", "(+)", "!", "*", "c/p", "-1.2_p3", ",", "?", "~", "=c/p-1", ":=", ":*",
